@@ -63,31 +63,55 @@ def lagrangianTolerance : Rat := 1 / 10000
 /-- Why is the implementation's answer not the optimum? Evaluate the implementation's own
     reported active set exactly (diagnostic text only; the verdict does not depend on it). -/
 def diagnose (c : Case) (xs : Array Rat) (q : QpData) (v : Variant) (p : Array Rat) (scale : Rat) : String :=
-  -- premature stop: calling solve() again on the same live solver reaches the certified optimum
+  -- (a) does calling solve() again on the same live solver reach the certified optimum?
   let xname := v.name ++ "x"
   let reached : Bool := match getVariant c xname with
     | some vx => vx.exc == "none" && (match vx.pos with
         | some px => px.size == xs.size && (maxDev px xs).1 ≤ tol * scale
         | none => false)
     | none => false
-  if reached then "cause=premature-stop-repeated-solve-reaches-optimum" else
-  match Oracle.evalActive q (Oracle.adjacency q) v.act with
-  | none => "cause=active-set-not-a-forest"
-  | some st => Id.run do
-    let (dv, _) := maxDev p st.x
-    if dv > tol * scale / 10 then
-      return s!"cause=positions-differ-from-own-active-set by={approx dv}"
-    let mut minlm : Rat := 0
-    let mut arg := 0
-    for k in [0:q.cons.size] do
-      if v.act.getD k false && !q.cons[k]!.eq && st.lam[k]! < minlm then
-        minlm := st.lam[k]!
-        arg := k
-    if minlm < -lagrangianTolerance then
-      return s!"cause=returned-with-splittable-constraint minlm={approx minlm} con={arg}"
-    if minlm < 0 then
-      return s!"cause=lm-within-solver-tolerance minlm={approx minlm} con={arg}"
-    return "cause=active-set-kkt-but-infeasible-or-other"
+  -- (b) did the library's solve() return exactly the state of the documented loop
+  --     "satisfy(); repeat satisfy() until the cost changes by <= 1e-4", re-executed by the harness
+  --     through the public satisfy()?  line: ref.<name> same|diff passes=<k> <largest move in the last pass>
+  let refl := (c.get1 ("ref." ++ v.name)).getD #[]
+  let refSame := refl.getD 0 "" == "same"
+  let refDiff := refl.getD 0 "" == "diff"
+  -- the reference loop's last pass is "neutral" if it moved no variable by more than 1e-9*scale
+  -- (re-merging under another block scale changes positions by rounding only)
+  let lastNeutral : Bool := match num? (refl.getD 2 "") with
+    | some mv => 0 ≤ mv && mv ≤ scale / 1000000000
+    | none => false
+  let refInfo := s!"{refl.getD 1 "passes=?"} last={if lastNeutral then "neutral" else "moved"}"
+  -- (c) the implementation's own active set, evaluated exactly
+  let own : String := match Oracle.evalActive q (Oracle.adjacency q) v.act with
+    | none => "active-set-not-a-forest"
+    | some st => Id.run do
+      let (dv, _) := maxDev p st.x
+      if dv > tol * scale / 10 then
+        return s!"positions-differ-from-own-active-set by={approx dv}"
+      let mut minlm : Rat := 0
+      let mut arg := 0
+      for k in [0:q.cons.size] do
+        if v.act.getD k false && !q.cons[k]!.eq && st.lam[k]! < minlm then
+          minlm := st.lam[k]!
+          arg := k
+      if minlm < -lagrangianTolerance then
+        return s!"returned-with-splittable-constraint minlm={approx minlm} con={arg}"
+      if minlm < 0 then
+        return s!"lm-within-solver-tolerance minlm={approx minlm} con={arg}"
+      return "active-set-kkt-but-infeasible-or-other"
+  let splittable := own.startsWith "returned-with-splittable-constraint"
+  if refDiff then
+    -- solve() did not do what its documented loop does (e.g. stopped after a fixed number of passes)
+    s!"cause=solve-differs-from-documented-satisfy-loop reference-{refInfo} repeated-solve-reaches-optimum={reached} own-state={own}"
+  else if refSame && reached && splittable && lastNeutral then
+    -- the structural class of the known finding: the documented loop itself exits because its last
+    -- pass changed no position (split undone by a re-merge) while a multiplier < -1e-4 remains
+    s!"cause=stopped-after-cost-neutral-pass-with-splittable-constraint {refInfo} {own.drop 36}"
+  else if refSame && reached && splittable then
+    s!"cause=stopped-after-small-cost-change-with-splittable-constraint {refInfo} {own.drop 36}"
+  else
+    s!"cause={own}"
 
 def parseCon (l : Array String) : Option Con :=
   if l.size < 4 then none else
@@ -172,7 +196,7 @@ def checkCase (c : Case) : CaseResult := Id.run do
     -- report a failure without a recognised mechanism first, so that a recognised (possibly
     -- known) one can never hide it
     let recognised (m : String) : Bool :=
-      (m.splitOn "cause=premature-stop-repeated-solve-reaches-optimum").length > 1 ||
+      (m.splitOn "cause=stopped-after-cost-neutral-pass-with-splittable-constraint").length > 1 ||
       (m.splitOn "cause=lm-within-solver-tolerance").length > 1
     let pick := (fails.find? (fun m => !recognised m)).getD fails[0]!
     let more := if fails.size > 1 then s!" (+{fails.size - 1} more failing comparisons in this case)" else ""
